@@ -197,10 +197,10 @@ Proof.
   - destruct s as [|c s]; [destruct q; cbn in Hq; try contradiction; reflexivity|].
     cbn [length] in Hn. assert (Hl : length s <= n) by lia.
     cbn [forallb] in Hs. apply andb_true_iff in Hs as [Hc Hs]. apply negb_true_iff in Hc.
-    destruct q as [st|st|mc mr|k prev|prev]; cbn in Hq; try contradiction; cbn [pre].
+    destruct q as [st an|st|mc mr|k prev|prev]; cbn in Hq; try contradiction; cbn [pre].
     + rewrite Hc. destruct (c =? c_lb); [rewrite IH; auto; exact I|].
       destruct (nl && (c =? c_nl)); [rewrite IH; auto; exact I|].
-      destruct (st && (c =? c_caret)); rewrite IH; auto; exact I.
+      destruct (st && negb an && (c =? c_caret)); rewrite IH; auto; exact I.
     + destruct (mc && (c =? c_caret)); [rewrite IH; auto; exact I|].
       destruct (mr && (c =? c_rb)); [rewrite IH; auto; exact I|].
       destruct (c =? c_rb); [rewrite IH; auto; exact I|].
@@ -232,7 +232,7 @@ Proof.
   - destruct s; [|cbn in Hn; lia]. destruct q; cbn in Hq; try contradiction; reflexivity.
   - destruct s as [|c s]; [destruct q; cbn in Hq; try contradiction; reflexivity|].
     cbn [length] in Hn. assert (Hl : length s <= n) by lia.
-    destruct q as [st|st|mc mr|k prev|prev]; cbn in Hq; try contradiction.
+    destruct q as [st an|st|mc mr|k prev|prev]; cbn in Hq; try contradiction.
     + (* outside *)
       cbn [pre]. destruct (c =? c_bs) eqn:Eb.
       * apply Nat.eqb_eq in Eb. subst c.
@@ -258,7 +258,7 @@ Proof.
         cbn [pre]. change (c_bs =? c_bs) with true. cbv iota. cbn [pre]. rewrite E1, E2, E3, E4. now rewrite IH.
       * destruct (c =? c_lb) eqn:E1; [cbn [pre]; rewrite Eb, E1; now rewrite IH|].
         destruct (nl && (c =? c_nl)) eqn:E2; [cbn [pre]; rewrite Eb, E1, E2; now rewrite IH|].
-        destruct (st && (c =? c_caret)) eqn:E3; cbn [pre]; rewrite Eb, E1, E2, E3; now rewrite IH.
+        destruct (st && negb an && (c =? c_caret)) eqn:E3; cbn [pre]; rewrite Eb, E1, E2, E3; now rewrite IH.
     + (* bracket expression *)
       cbn [pre]. destruct (mc && (c =? c_caret)) eqn:E1; [cbn [pre]; rewrite E1; now rewrite IH|].
       destruct (mr && (c =? c_rb)) eqn:E2; [cbn [pre]; rewrite E1, E2; now rewrite IH|].
